@@ -9,11 +9,27 @@ import os
 PKGS = [
     ("/verif/fixtures/pkgs/kwpkg", "numpydoc"),
     ("/repo/tests/data/various_modules_package", "plaintext"),
+    ("/verif/fixtures/pkgs/advpkg", "numpydoc"),
     ("/repo/tests/data/docstring_parser_package", "numpydoc"),
     ("/repo/tests/data/docstring_parser_package", "google"),
     ("/repo/tests/data/docstring_parser_package", "rest"),
 ]
-QUICK = PKGS[:2]
+QUICK = PKGS[:3]
+
+
+import contextlib
+
+
+@contextlib.contextmanager
+def hidden_verif():
+    """The real code runs without /verif on sys.path (griffe names packages relative to sys.path entries)."""
+    import sys
+    saved = list(sys.path)
+    sys.path[:] = [p for p in sys.path if os.path.abspath(p or ".") != "/verif"]
+    try:
+        yield
+    finally:
+        sys.path[:] = saved
 
 
 @functools.lru_cache(maxsize=None)
